@@ -1042,9 +1042,12 @@ def gen_handle_case(rng, i):
             rng.shuffle(pool)
         pools.append(pool)
     n_batches = rng.choice([2, 2, 3, 4])
+    many = i % 4 == 2 or rng.random() < 0.1       # size boundary: >= 11 part files before the first append
     frames, idx_specs = [], []
     for b in range(n_batches):
         n = rng.choice([2, 3, 5, 8, 12]) if b else rng.choice([3, 5, 8])
+        if many and b == 0:
+            n = rng.choice([24, 26, 31])        # with row groups of 2 rows: part ids 0..11+ (two-digit ids: 9 < 10 only as numbers)
         cols = {}
         for nm, kd, pool in zip(names, kinds, pools):
             # later batches bring partition values not seen before (and repeat old ones)
@@ -1078,7 +1081,7 @@ def gen_handle_case(rng, i):
         prog.append(["read"])
         prog.append([rng.choice(obs)])
     return {"scheme": scheme, "on": names, "kinds": kinds, "frames": frames, "indexes": idx_specs, "prog": prog,
-            "rgo": rng.choice([None, 2, 3]),
+            "rgo": 2 if many else rng.choice([None, 2, 3]),
             # the directory loses its summary files before the handle is opened: the handle comes from the file listing (footers merged),
             # and the first edit through it writes the summary
             "nometa": rng.random() < 0.25,
